@@ -45,6 +45,8 @@ var allSpecs = []HarnessSpec{
 	{Prop: "C06", Func: "ZZ_C06_DistinctOnce", POR: true, Replay: "native", Twin: true, Params: map[string]int{"__coarse": 1}},
 	{Prop: "C02", Func: "ZZ_C11_Deferred", Replay: "native"},
 	{Prop: "C14", Func: "ZZ_C11_Deferred", Replay: "native"},
+	{Prop: "C14", Func: "ZZ_C14_DeferredCall", Replay: "native", Twin: true},
+	{Prop: "C02", Func: "ZZ_C14_DeferredCall", Replay: "native"},
 	{Prop: "C06", Func: "ZZ_C06_RunModes", POR: true, Replay: "native", Twin: true, Params: map[string]int{"failing": 1, "__coarse": 1}, TParams: map[string]int{"failing": 2}},
 	{Prop: "C07", Func: "ZZ_C07_Concurrency", Tag: "shape=1", POR: true, Replay: "native", Twin: true, MustReach: []string{"independent-deps-overlap"}, Params: map[string]int{"shape": 1, "maxconc": 2, "__coarse": 1}},
 	{Prop: "C07", Func: "ZZ_C07_Concurrency", Tag: "shape=2", POR: true, Replay: "native", Params: map[string]int{"shape": 2, "maxconc": 2, "__coarse": 1}},
@@ -67,6 +69,7 @@ var allSpecs = []HarnessSpec{
 	{Prop: "C10", Pkg: "taskfile", Func: "ZZ_C10_IncludeStatement", POR: true, Replay: "native", Twin: true, Params: map[string]int{"__coarse": 1}},
 	{Prop: "C09", Pkg: "taskfile", Func: "ZZ_C09_NodeResolve", Replay: "native", Twin: true},
 	{Prop: "C20", Pkg: "taskfile", Func: "ZZ_C20_HTTPNodeOffline", Replay: "native", Twin: true},
+	{Prop: "C20", Pkg: "taskfile", Func: "ZZ_C20_NodeOnlineOffline", Replay: "native", Twin: true},
 	{Prop: "C09", Pkg: "taskfile", Func: "ZZ_C09_Reader", POR: true, Replay: "native", Twin: true, Params: map[string]int{"__coarse": 1}},
 	{Prop: "C10", Pkg: "", Func: "ZZ_C10_Vars", Replay: "native", Twin: true},
 	{Prop: "C10", Pkg: "", Func: "ZZ_C10_Env", Replay: "native", Twin: true},
